@@ -26,6 +26,7 @@ MANIFEST = {
 }
 
 F = 10
+INF = float('inf')
 METHODS = ['sum', 'avg', 'min', 'max', 'count', 'p50', 'p75', 'p80', 'p90', 'p95', 'p99', 'p999']
 
 
@@ -172,7 +173,9 @@ class AggSystem(evx.System):
       ts = {'now': now, 'prev': now - F, 'late3': now - 3 * F, 'old': now - (self.m + 3) * F,
             'fracprev': now - F + 0.5, 'fraclate': now - 2 * F + 9.75}[kind]
       value = 2 ** self.n
-      if len(ev) > 3:
+      if len(ev) > 3 and not isinstance(ev[3], str):
+        value = ev[3]
+      elif len(ev) > 3:
         # extreme but legal values (the line listener accepts them; only NaN is filtered before the pipeline)
         value = {'inf': float('inf'), '-inf': float('-inf'), 'big': 1.5e308, '-big': -1.5e308}[ev[3]]
       interval = int(ts) - int(ts) % F if isinstance(ts, int) else ts - (ts % F)
@@ -238,7 +241,9 @@ class AggSystem(evx.System):
       f = ref_func(method)
       mark = self.reload_mark.get(key, 0)     # values received before a rules reload may have been dropped with the buffers
       def same(a, b):
-        return a == b or (a != a and b != b)
+        # (equal up to the rounding of a different but algebraically equal evaluation order)
+        return a == b or (a != a and b != b) or (
+          isinstance(a, float) and isinstance(b, (int, float)) and abs(a) != INF and abs(b) != INF and abs(a - b) <= 1e-12 * max(abs(a), abs(b)))
       js = [j for j in range(0, max(L, mark) + 1) if j < len(vals) and same(f(vals[j:]), value)]
       if not js:
         return ('wrong-aggregate:' + method, '%r interval %r emitted %r; values received %r (first %d already emitted): no suffix '
@@ -396,8 +401,64 @@ def pattern_shard(arg):
   return n, hits, bad
 
 
+def width_orders(n):
+  # ascending, descending and a fixed scrambled order of n distinct values (1009 is prime and larger than any n used)
+  asc = [float(i * i + 1) for i in range(n)]
+  scr = [asc[(i * 389 + 7) % n] for i in range(n)] if n > 1 and 389 % n and _coprime(389, n) else asc[1::2] + asc[0::2]
+  return [('ascending', asc), ('descending', asc[::-1]), ('scrambled', scr)]
+
+
+def _coprime(a, b):
+  while b:
+    a, b = b, a % b
+  return a == 1
+
+
+def width_shard(arg):
+  """One interval holding n values, for every n of `sizes`, in three arrival orders: the emitted aggregate is the documented
+  function of exactly those n values (the rank arithmetic of the percentiles depends on n alone)."""
+  method, sizes = arg
+  sysm = AggSystem({'rules': [('agg.<p>', '<p>.*', method)], 'm': 2, 'inputs': ('x.a',)})
+  n_runs = n_events = 0
+  bad = []
+  for n in sizes:
+    for order, vals in width_orders(n):
+      sysm.reset()
+      hist = []
+      v = None
+      for x in vals:
+        ev = ('dp', 'x.a', 'now', x)
+        hist.append(ev)
+        v = sysm.apply(ev)
+        if v:
+          break
+      if not v:
+        hist.append(('tick', 10))
+        v = sysm.apply(('tick', 10))
+        if not v and not any(a == 'agg.x' for a, _, _ in sysm.emitted):
+          v = ('never-emitted:' + method, 'an interval holding %d values was not emitted at the flush that follows it' % n)
+      n_runs += 1
+      n_events += len(hist)
+      if v and len(bad) < 2:
+        bad.append((v[0], '%s of %d values arriving in %s order in one interval: %s' % (method, n, order, v[1][:600]),
+                    {'engine': 'evx-agg', 'config': dict(sysm.p, rules=[list(r) for r in sysm.p['rules']]), 'history': [list(e) for e in hist]}))
+  sysm.close()
+  return n_runs, n_events, bad
+
+
 def run(ctx):
   env.boot()
+  top = ctx.pick(130, 260)
+  wtasks = [(mth, list(range(lo, min(lo + 26, top + 1)))) for mth in METHODS for lo in range(1, top + 1, 26)]
+  if ctx.thorough:
+    wtasks += [(mth, list(range(lo, lo + 25))) for mth in ('p99', 'p999') for lo in range(top + 1, 1101, 25)]
+  WR = WE = 0
+  for n_runs, n_events, bad in core.pmap(width_shard, wtasks, chunksize=1):
+    WR += n_runs
+    WE += n_events
+    for key, what, rep in bad:
+      ctx.violation(key, what, rep)
+  ctx.add(buffer_width_runs=WR, buffer_width_events=WE, buffer_width_max=1100 if ctx.thorough else top)
   depth = ctx.pick(6, 8)
   cfgs = core.seeded_order(stream_configs(ctx), ctx.seed)
   res = core.pmap(stream_job, [(c, depth if len(c['rules']) == 1 else 6) for c in cfgs], chunksize=1)
